@@ -285,3 +285,21 @@ def ubsan_reports(text):
         msg = re.sub(r"0xN?[0-9a-fA-F]*", "P", msg)
         out.append((msg, os.path.basename(m.group(1)), m.group(0)))
     return out
+
+
+def ioshim():
+    """LD_PRELOAD fault injector (rt/ioshim.c), built on demand."""
+    d = os.path.join(C.CACHE, "tools")
+    src = os.path.join(C.RT, "ioshim.c")
+    key = C.sha(open(src, "rb").read())[:16]
+    out = os.path.join(d, "ioshim-%s.so" % key)
+    if os.path.exists(out):
+        return out
+    with _Lock(out + ".lock"):
+        if os.path.exists(out):
+            return out
+        rc, o, _, to = C.run(["gcc", "-shared", "-fPIC", "-O1", src, "-o", out + ".tmp", "-ldl"], timeout=120)
+        if rc != 0:
+            raise HarnessError("building ioshim failed: " + o.decode(errors="replace"))
+        os.replace(out + ".tmp", out)
+    return out
